@@ -12,7 +12,8 @@ use crate::memfs::Ws;
 use crate::util::{guarded, jarr, jstr, on_thread, ANALYSIS_STACK};
 
 fn flat(s: &DocumentSymbol, out: &mut Vec<Value>, p: &str) {
-    out.push(json!([p, u32::from(s.range.start()), u32::from(s.range.end()), s.name.to_string()]));
+    out.push(json!([p, u32::from(s.range.start()), u32::from(s.range.end()), s.name.to_string(), format!("{:?}", s.kind), s.typ.to_string(),
+                    s.children.len()]));
     for c in &s.children {
         flat(c, out, p);
     }
@@ -62,9 +63,14 @@ pub fn idequery_item(item: &Value) -> Value {
                     .flatten()
                     .map(|v| json!(v.iter().map(|l| json!([p, u32::from(l.range.start()), u32::from(l.range.end()), path(l.target)])).collect::<Vec<_>>()))
                     .unwrap_or(Value::Null),
+                "hover" => guarded(|| a.hover(pos)).ok().flatten().map(|h| json!([h.signature, h.document])).unwrap_or(Value::Null),
                 "inlayHint" => {
                     let len = files.get(p).map(|t| t.len()).unwrap_or(0) as u32;
-                    let range = FileRange::new(fid, TextRange::new(0.into(), len.into()));
+                    let (rs, re) = match q.get("range").and_then(|r| r.as_array()) {
+                        Some(r) => (r[0].as_u64().unwrap_or(0) as u32, r[1].as_u64().unwrap_or(0) as u32),
+                        None => (0, len),
+                    };
+                    let range = FileRange::new(fid, TextRange::new(rs.into(), re.into()));
                     guarded(|| a.inlay_hint(range))
                         .ok()
                         .flatten()
